@@ -477,6 +477,17 @@ def getTokenGo (k : Key) (value : Val) (attrs : List (Key × Option Nat)) : List
 def getToken (isRequest : Bool) (k : Key) (value : Val) (attrs : List (Key × Option Nat)) : R Part :=
   getTokenGo k value attrs (knownTokens isRequest).flatten
 
+/-- a sequence of `get_token` calls (the first one that raises ends the assembly) -/
+def getTokens (isRequest : Bool) : List (Key × Val × List (Key × Option Nat)) → R (List Part)
+  | [] => .ok []
+  | (k, v, a) :: rest =>
+    match getToken isRequest k v a with
+    | .error e => .error e
+    | .ok p =>
+      match getTokens isRequest rest with
+      | .error e => .error e
+      | .ok ps => .ok (p :: ps)
+
 /-- a document assembled by hand: `LRRP(document_id=…)` with `parts` appended -/
 def newDoc (docId : Nat) (parts : List Part) : Doc := ⟨docId, [], true, false, parts⟩
 
